@@ -858,7 +858,7 @@ func runC12(r *Run) {
 	if r.ReplayFile != "" {
 		return
 	}
-	for i := 0; i < r.N; i++ {
+	for i := 0; i < r.N && len(r.Violations) < 20; i++ {
 		e.termCase(r, c12RandOrder(r.Rng, e.keys, r.Rng.Intn(3) == 0), r.Rng)
 		for j := 0; j < 2; j++ {
 			c := c12RandOrder(r.Rng, e.keys, true)
